@@ -51,7 +51,11 @@ StackOK(d, before, after, targets) ==
     LET ins  == Keys(Concat(targets, d.x, 1))
         hb   == Keys(SelectSeq(before, LAMBDA ln : ~(ln.cls = "dir" /\ ln.key = d.raw) /\ ln.cls # "stackmark"))     \* other directives of the host stay
         ha   == Keys(SelectSeq(after, LAMBDA ln : ln.cls # "stackmark"))
-    IN  \E k \in 0..Len(hb) : ha = SubSeq(hb, 1, k) \o ins \o SubSeq(hb, k + 1, Len(hb))
+        hbL  == SelectSeq(before, LAMBDA ln : ~(ln.cls = "dir" /\ ln.key = d.raw) /\ ln.cls # "stackmark")
+        \* the stacked rules belong to the host profile itself, not to one of its sub-profiles: at the insertion
+        \* point exactly one block (the host's) is open
+        Depth(k) == Cardinality({i \in 1..k : hbL[i].cls = "hdr"}) - Cardinality({i \in 1..k : hbL[i].cls = "close"})
+    IN  \E k \in 0..Len(hb) : ha = SubSeq(hb, 1, k) \o ins \o SubSeq(hb, k + 1, Len(hb)) /\ (ins = <<>> \/ Depth(k) = 1)
 
 \* ---------------------------------------------------------------- C02
 \* the output of a file in the whole build equals its output in a build that contains only the
